@@ -26,60 +26,65 @@ Proof. intros Hw. unfold quoted_b.
   - exact (boundary_succ s qs _ Hw N1 eq_refl).
   - exact (boundary_at s _ _ N2 eq_refl). Qed.
 
-Lemma rename_all_safe t : wf t = true -> safe (rename_all_b t).
-Proof. intros Hw. unfold rename_all_b.
-  destruct (find (L "rename_all") t) as [st|] eqn:E1; [|exact I].
-  assert (N0 : nth_error t st = Some "r") by (eapply find_head; [reflexivity|exact E1]).
-  rewrite (slice_from_at t st _ N0 eq_refl). cbn [bind].
-  destruct (find_char "=" (skipn st t)) as [e|] eqn:E2; [|exact I].
-  pose proof (find_char_nth _ _ _ E2) as N2. rewrite nth_error_skipn in N2.
-  replace (st + e + 1) with (S (st + e)) by lia.
-  rewrite (slice_from_after t _ _ Hw N2 eq_refl). cbn [bind].
-  apply quoted_safe. apply wf_trim_start, wf_skipn, Hw. Qed.
+Lemma wf_trim_spaces : forall s, wf s = true -> wf (trim_spaces s) = true.
+Proof. induction s as [|b s IH]; intros H; [reflexivity|]. cbn [trim_spaces]. destruct (Ascii.eqb b " "); [apply IH; eapply wf_tail; eauto|exact H]. Qed.
 
-(* the repaired restart offset tokens.len() - trimmed.len() + 4 is the boundary just after the matched _all *)
-Lemma rename_step t abs : wf t = true -> abs + 6 <= List.length t ->
-  starts (L "_all") (trim_start (skipn (abs + 6) t)) = true ->
-  let ss := List.length t - List.length (trim_start (skipn (abs + 6) t)) + 4 in
-  abs + 10 <= ss /\ ss <= List.length t /\ boundary t ss = true.
-Proof. intros Hw Hl S2. set (after := skipn (abs + 6) t) in *.
-  assert (Hla : List.length after = List.length t - (abs + 6)) by (unfold after; apply skipn_length).
-  pose proof (len_trim_start after) as Hlt.
-  set (k := List.length after - List.length (trim_start after)).
-  assert (Ht : trim_start after = skipn k after) by apply trim_start_is_skipn.
-  assert (N : nth_error t (abs + 6 + (k + 3)) = Some "l").
-  { pose proof (starts_nth _ _ 3 S2 ltac:(change (List.length (L "_all")) with 4; lia)) as N3.
-    rewrite Ht in N3. rewrite nth_error_skipn in N3. unfold after in N3. rewrite nth_error_skipn in N3. exact N3. }
-  cbv zeta. replace (List.length t - List.length (trim_start after) + 4) with (S (abs + 6 + (k + 3))) by (unfold k; lia).
-  pose proof (nth_error_lt _ _ _ N). split; [lia|]. split; [lia|].
-  exact (boundary_succ t _ _ Hw N eq_refl). Qed.
-
-Lemma rename_go_safe t : wf t = true ->
-  forall fuel ss, List.length t - ss < fuel -> ss <= List.length t -> boundary t ss = true ->
-  safe (rename_go fuel t ss).
-Proof. intros Hw. induction fuel as [|f IH]; intros ss Hf Hl Hb; [lia|].
-  cbn [rename_go]. rewrite (slice_from_ok _ _ Hl Hb). cbn [bind].
-  destruct (find (L "rename") (skipn ss t)) as [pos|] eqn:E1; [|exact I].
+(* find_key: text[from..] starts just after an ASCII key, text[..at] ends at the first byte of the key *)
+Lemma find_key_spec text key k0 key' : wf text = true -> key = k0 :: key' -> forallb is_ascii key = true ->
+  forall fuel from, List.length text - from < fuel -> from <= List.length text -> boundary text from = true ->
+  exists r, find_key_go fuel text key from = Ok r /\ forall rest, r = Some rest -> wf rest = true.
+Proof. intros Hw Hk Ha. induction fuel as [|f IH]; intros from Hf Hl Hb; [lia|].
+  cbn [find_key_go]. rewrite (slice_from_ok _ _ Hl Hb). cbn [bind].
+  destruct (find key (skipn from text)) as [pos|] eqn:E1; [|eexists; split; [reflexivity|discriminate]].
   destruct (find_starts _ _ _ E1) as [S1 _]. rewrite skipn_add in S1.
-  assert (N5 : nth_error t (ss + pos + 5) = Some "e").
-  { rewrite <- nth_error_skipn. rewrite (starts_nth _ _ 5 S1); [reflexivity | change (List.length (L "rename")) with 6; lia]. }
-  replace (ss + pos + 6) with (S (ss + pos + 5)) by lia.
-  rewrite (slice_from_after t _ _ Hw N5 eq_refl). cbn [bind]. cbv zeta.
-  destruct (starts (L "_all") (trim_start (skipn (S (ss + pos + 5)) t))) eqn:E2.
-  - replace (S (ss + pos + 5)) with (ss + pos + 6) in * by lia.
-    pose proof (nth_error_lt _ _ _ N5) as Hlt.
-    destruct (rename_step t (ss + pos) Hw ltac:(lia) E2) as (H1 & H2 & H3).
-    apply IH; auto. lia.
-  - set (after := skipn (S (ss + pos + 5)) t) in *.
-    assert (Hwa : wf after = true) by (apply wf_skipn, Hw).
-    destruct (find_char "=" after) as [e|] eqn:E3; [|exact I].
-    pose proof (find_char_nth _ _ _ E3) as N3.
-    replace (e + 1) with (S e) by lia.
-    rewrite (slice_from_after after _ _ Hwa N3 eq_refl). cbn [bind].
-    apply quoted_safe. apply wf_trim_start, wf_skipn, Hwa. Qed.
+  assert (N0 : nth_error text (from + pos) = Some k0).
+  { rewrite <- nth_error_skipn. eapply find_head; eauto. }
+  assert (C0 : is_cont k0 = false).
+  { apply ascii_not_cont. subst key. cbn [forallb] in Ha. apply andb_true_iff in Ha. tauto. }
+  rewrite (slice_to_at _ _ _ N0 C0). cbn [bind]. cbv zeta.
+  assert (Hlen : 1 <= List.length key) by (subst key; simpl; lia).
+  destruct (nth_error key (List.length key - 1)) as [c|] eqn:Ec; [|apply nth_error_None in Ec; lia].
+  assert (Ac : is_ascii c = true) by (apply (proj1 (forallb_forall _ _) Ha); eapply nth_error_In; eauto).
+  assert (Nl : nth_error text (from + pos + (List.length key - 1)) = Some c).
+  { rewrite <- nth_error_skipn. rewrite (starts_nth _ _ _ S1); [exact Ec|lia]. }
+  pose proof (nth_error_lt _ _ _ Nl) as Hlt.
+  assert (Hb' : boundary text (from + pos + List.length key) = true).
+  { replace (from + pos + List.length key) with (S (from + pos + (List.length key - 1))) by lia. exact (boundary_succ _ _ _ Hw Nl Ac). }
+  assert (REC : exists r, find_key_go f text key (from + pos + List.length key) = Ok r /\ forall rest, r = Some rest -> wf rest = true).
+  { apply IH; auto; lia. }
+  destruct (match rev (firstn (from + pos) text) with b :: _ => ident_byte b | [] => false end); [exact REC|].
+  rewrite (slice_from_ok text (from + pos + List.length key)); [|lia|exact Hb']. cbn [bind].
+  destruct (starts (L "=") _ || starts (L "(") _); [|exact REC].
+  eexists; split; [reflexivity|]. intros rest H. injection H as <-. apply wf_trim_spaces, wf_skipn, Hw. Qed.
 
+Lemma find_key_b_spec text key k0 key' : wf text = true -> key = k0 :: key' -> forallb is_ascii key = true ->
+  exists r, find_key_b text key = Ok r /\ forall rest, r = Some rest -> wf rest = true.
+Proof. intros Hw Hk Ha. eapply find_key_spec; eauto; lia. Qed.
+
+Lemma strip_prefix_wf p s r : strip_prefix p s = Some r -> wf s = true -> wf r = true.
+Proof. unfold strip_prefix. destruct (starts p s); [|discriminate]. intros H Hw. injection H as <-. apply wf_skipn, Hw. Qed.
+
+Lemma written_value_safe tokens key k0 key' : wf tokens = true -> key = k0 :: key' -> forallb is_ascii key = true ->
+  safe (written_value_b tokens key).
+Proof. intros Hw Hk Ha. unfold written_value_b.
+  destruct (find_key_b_spec tokens key k0 key' Hw Hk Ha) as (r & -> & Hr). cbn [bind].
+  destruct r as [rest|]; [|exact I]. pose proof (Hr rest eq_refl) as Hwr.
+  assert (Q : forall x, wf x = true -> safe (match strip_prefix (L "=") x with Some t => quoted_b t | None => Ok None end)).
+  { intros x Hx. destruct (strip_prefix (L "=") x) as [t|] eqn:E; [|exact I]. apply quoted_safe. eapply strip_prefix_wf; eauto. }
+  destruct (strip_prefix (L "(") rest) as [group|] eqn:Eg; [|apply Q, Hwr].
+  pose proof (strip_prefix_wf _ _ _ Eg Hwr) as Hwg.
+  assert (Hs : exists g, slice_to group (match find_char ")" group with Some i => i | None => List.length group end) = Ok g /\ wf g = true).
+  { destruct (find_char ")" group) as [i|] eqn:Ei.
+    - pose proof (find_char_nth _ _ _ Ei) as N. rewrite (slice_to_at _ _ _ N eq_refl). eexists; split; [reflexivity|apply wf_firstn, Hwg].
+    - rewrite (slice_to_ok group (List.length group)); [|lia|apply boundary_len]. eexists; split; [reflexivity|apply wf_firstn, Hwg]. }
+  destruct Hs as (g & -> & Hwgg). cbn [bind].
+  destruct (find_key_b_spec g (L "serialize") "s" (L "erialize") Hwgg eq_refl eq_refl) as (r2 & -> & Hr2). cbn [bind].
+  destruct r2 as [x|]; [|exact I]. apply Q, Hr2. reflexivity. Qed.
+
+Lemma rename_all_safe t : wf t = true -> safe (rename_all_b t).
+Proof. intros Hw. apply (written_value_safe t (L "rename_all") "r" (L "ename_all")); auto. Qed.
 Lemma rename_safe t : wf t = true -> safe (rename_b t).
-Proof. intros Hw. apply rename_go_safe; auto; [lia|lia]. Qed.
+Proof. intros Hw. apply (written_value_safe t (L "rename") "r" (L "ename")); auto. Qed.
 
 Lemma serde_safe t : wf t = true -> safe (serde_b t).
 Proof. intros Hw. unfold serde_b. apply safe_bind; [apply rename_safe; auto|]. intros r _.
@@ -518,7 +523,7 @@ Proof. induction fuel as [|f IH]; intros t Hf; [lia|]. cbn [prefix_go].
 Theorem prefix_safe t : safe (prefix_b t).
 Proof. apply prefix_total. lia. Qed.
 
-(* ================= the rename loop never exhausts its fuel, also inside the defect class ================= *)
+(* ================= the key scanner never exhausts its fuel ================= *)
 
 Lemma slice_from_nf s a : slice_from s a <> OutOfFuel.
 Proof. unfold slice_from. destruct (_ && _); discriminate. Qed.
@@ -530,26 +535,8 @@ Proof. unfold quoted_b. destruct (find_char """" s); [|discriminate].
   destruct (find_char """" a); [|discriminate].
   pose proof (slice_nf s (n + 1) (n + 1 + n0)). destruct (slice s (n + 1) (n + 1 + n0)); cbn [bind]; try congruence; discriminate. Qed.
 
-Lemma slice_from_inv s a x : slice_from s a = Ok x -> x = skipn a s /\ a <= List.length s.
-Proof. unfold slice_from. destruct (a <=? List.length s)%nat eqn:E; [|discriminate]. destruct (boundary s a); [|discriminate].
-  cbn [andb]. intros H. injection H as <-. apply Nat.leb_le in E. auto. Qed.
-
-Lemma rename_go_fuel t : forall fuel ss, List.length t - ss < fuel -> rename_go fuel t ss <> OutOfFuel.
-Proof. induction fuel as [|f IH]; intros ss Hf; [lia|]. cbn [rename_go]. unfold slice_from at 1.
-  destruct ((ss <=? List.length t)%nat && boundary t ss) eqn:E; [|discriminate]. cbn [bind].
-  apply andb_true_iff in E as [E _]. apply Nat.leb_le in E.
-  destruct (find (L "rename") (skipn ss t)) as [pos|] eqn:E1; [|discriminate].
-  pose proof (slice_from_nf t (ss + pos + 6)) as NF.
-  destruct (slice_from t (ss + pos + 6)) as [| |after] eqn:Es; cbn [bind]; try congruence; try discriminate.
-  destruct (slice_from_inv _ _ _ Es) as [-> Hle]. cbv zeta.
-  destruct (starts (L "_all") (trim_start (skipn (ss + pos + 6) t))).
-  - apply IH. pose proof (len_trim_start (skipn (ss + pos + 6) t)) as Hlt. rewrite skipn_length in Hlt. lia.
-  - destruct (find_char "=" (skipn (ss + pos + 6) t)) as [e|]; [|discriminate].
-    pose proof (slice_from_nf (skipn (ss + pos + 6) t) (e + 1)) as NF2.
-    destruct (slice_from (skipn (ss + pos + 6) t) (e + 1)); cbn [bind]; try congruence; try discriminate.
-    apply quoted_nf. Qed.
-Lemma rename_nf t : rename_b t <> OutOfFuel.
-Proof. apply rename_go_fuel. lia. Qed.
+Lemma rename_nf t : wf t = true -> rename_b t <> OutOfFuel.
+Proof. intros Hw. apply safe_not_panic, rename_safe, Hw. Qed.
 
 (* ================= the i32 depth of find_top_level_comma: explicit bound ================= *)
 
